@@ -19,8 +19,8 @@ Oracles
   carry-on  "skips its correction": through an accelerometer / magnetometer
             dropout of >= 5 samples with a valid gyroscope, a filter that
             refused no sample moves at least half as far as the dead reckoning
-            of the gyroscope samples it was given (when that is >= 0.05 rad and
-            the dropout-free twin follows it too); EKF is exempt (it returns the
+            of the gyroscope samples it was given and as its dropout-free twin
+            (the smaller of the two, when that is >= 0.05 rad); EKF is exempt (it returns the
             prior, the mechanism the property names).
 """
 import copy
@@ -398,12 +398,13 @@ class Check:
                     qp = qm.qnorm(qm.qmul(qp, qm.qexp(np.asarray(hist.gyr[k], dtype=float) * hist.dt)))
                 mt = self._dist(kind, a_ref, qm.qconj(qp) if kind.conj else qp, out_f[s0 - 1])
                 mf = self._dist(kind, a_ref, out_f[e0], out_f[s0 - 1])
-                if not self._dist(kind, a_ref, out_t[e0], out_t[s0 - 1]) >= 0.5 * mt:
-                    continue            # the dropout-free twin does not follow its gyroscope either: not attributable
+                # ... and the dropout-free twin: a filter that estimates a gyroscope bias rightly moves less than the raw
+                # samples say, so the yardstick is the smaller of the two movements
+                mt = min(mt, self._dist(kind, a_ref, out_t[e0], out_t[s0 - 1]))
                 stats['carry_on_checked'] = stats.get('carry_on_checked', 0) + 1
                 log.add('carry-on', round(mt, 9), round(mf, 9))
                 if mt >= 0.05 and mf < 0.5 * mt:
-                    viol.append(v('frozen', e0, f'during the {"+".join(sens)} dropout of ticks {s0}..{e0} (gyroscope valid, no sample refused) the estimate moved {mf:.4g} rad while the gyroscope samples it was given amount to {mt:.4g} rad'))
+                    viol.append(v('frozen', e0, f'during the {"+".join(sens)} dropout of ticks {s0}..{e0} (gyroscope valid, no sample refused) the estimate moved {mf:.4g} rad while the gyroscope samples it was given and the dropout-free run both amount to at least {mt:.4g} rad'))
                     break
         # hidden mode switches: at the end of the history the filter object must carry the same scalar configuration
         # (gains, periods, flags) as the object that processed the history without dropouts
